@@ -70,6 +70,7 @@ def cfg_C03(tier, rng):
                  + gc.family_hist(rng, 20 if tier == QUICK else 200),
                  consts=dict(MaxQ=1, MaxLevel=8 if tier == QUICK else 10),
                  variants=[dict(variant='api_edit'), dict(variant='ryaml')],
+                 jobs_for=(lambda ci, h, r: [dict(variant=('api_edit', 'ryaml')[(ci + len(h)) % 2])]) if tier == QUICK else None,
                  random=dict(count=150 if tier == QUICK else 1500, length=12,
                              family=lambda r, k: gc.family_f3(r, k, nmin=5, nmax=9)))]
 
@@ -108,7 +109,7 @@ def cfg_C04(tier, rng):
 
 
 def cfg_C05(tier, rng):
-    k = 10 if tier == QUICK else 100
+    k = 7 if tier == QUICK else 100
     charts = gc.family_f3(rng, k, nmin=3, nmax=5, tmin=3, tmax=6, nev=2, max_oracle=2)
     return [dict(name='queues', charts=charts,
                  consts=dict(MaxQ=2 if tier == QUICK else 3, MaxClk=2 if tier == QUICK else 3,
@@ -241,7 +242,7 @@ def cfg_C10(tier, rng):
                              family=lambda r, kk: gc.family_f3(r, kk, nmin=5, nmax=8)))]
 
 
-def mixed_family(tier, rng, small=60, big=30):
+def mixed_family(tier, rng, small=40, big=20):
     f = _sub(gc.family_f1(4), small if tier == QUICK else small * 8, rng)
     f += gc.family_f2(rng, big if tier == QUICK else big * 8)
     f += gc.family_nested(rng, big // 2 if tier == QUICK else big * 4)
@@ -250,7 +251,7 @@ def mixed_family(tier, rng, small=60, big=30):
 
 
 def cfg_C07(tier, rng):
-    charts = thin(mixed_family(tier, rng), rng, 8) + gc.family_nested(rng, 40 if tier == QUICK else 400)
+    charts = thin(mixed_family(tier, rng), rng, 8) + gc.family_nested(rng, 24 if tier == QUICK else 400)
     rd = dict(count=100 if tier == QUICK else 1000, length=14,
               family=lambda r, kk: gc.family_f3(r, kk, nmin=5, nmax=9))
     return [dict(name='declaration', charts=charts,
@@ -259,9 +260,9 @@ def cfg_C07(tier, rng):
                            dict(variant='api_edit', seed=2, twin=dict(rel='variant', kw=dict(variant='yaml'))),
                            dict(variant='api_reversed', twin=dict(rel='variant', kw=dict(variant='api', seed=3)))],
                  random=rd),
-            dict(name='hashseed', charts=charts[:len(charts) // 3] + thin(gc.family_hist(rng, 40 if tier == QUICK else 300), rng, 9)
-                 + gc.family_nested(rng, 30 if tier == QUICK else 300)
-                 + [c for c in gc.family_f1(4) if 'deep' in c['kind']][:40],
+            dict(name='hashseed', charts=charts[:len(charts) // 3] + thin(gc.family_hist(rng, 24 if tier == QUICK else 300), rng, 9)
+                 + gc.family_nested(rng, 16 if tier == QUICK else 300)
+                 + [c for c in gc.family_f1(4) if 'deep' in c['kind']][:20],
                  consts=dict(MaxQ=1, MaxLevel=6 if tier == QUICK else 7),
                  variants=[dict(variant='api', pool='unicode')],
                  other_process=[1, 2] if tier == QUICK else [1, 2, 3, 12345, 99],
